@@ -10,8 +10,8 @@ enum Ctor { C_PROMISE_FN = 0, C_FUTURE_FN_PENDING, C_FUTURE_FN_READY, C_DEFAULT_
 static const char *ctor_names[] = {"promfn", "futfn", "futready", "getpromise", "promfn-thread", "futfn-thread"};
 enum RKind { R_VAL = 0, R_EXC, R_DROP, R_NK };
 static const char *rk_names[] = {"val", "exc", "drop"};
-enum Script { S_WAIT = 0, S_CORO, S_COPYDROP, S_DROP, S_POLL, S_NK };
-static const char *sc_names[] = {"wait", "coro", "copydrop", "drop", "poll"};
+enum Script { S_WAIT = 0, S_CORO, S_COPYDROP, S_DROP, S_POLL, S_CBFN, S_NK };
+static const char *sc_names[] = {"wait", "coro", "copydrop", "drop", "poll", "cbfn"};
 enum MainDrop { M_EARLY = 0, M_LATE };
 
 enum { S_REL = 0, S_KIND = 4, S_VAL = 8 };
@@ -47,6 +47,18 @@ static cocls::async<void> coro(SF h, int id) {
     }
 }
 
+// callback-flavoured await on a copy (what co_await pool(copy) / parallel(copy) do): await_ready, then
+// await_suspend(fn, ctx); the callback - or the caller itself when nothing was registered - observes the result
+struct CbFnCtx {
+    SF *h;
+    int id;
+};
+static cocls::suspend_point<void> cbfn_done(cocls::awaiter *, void *p) noexcept {
+    auto *c = static_cast<CbFnCtx *>(p);
+    observe(*c->h, c->id);
+    return {};
+}
+
 static void handle_thread(SF h, int id, int script) {
     static const char *labels[] = {"h0", "h1", "h2"};
     vrt_label(labels[id]);
@@ -64,6 +76,21 @@ static void handle_thread(SF h, int id, int script) {
             break;
         }
         case S_DROP: record(id, 0, 0); break;  // handle dies while possibly pending
+        case S_CBFN: {
+            // the copy, the awaiter and the context live on the heap until the scenario ends (the callback may run on the
+            // resolver's thread after this thread has returned)
+            auto *hc = new SF(h);
+            auto *ctx = new CbFnCtx{hc, id};
+            auto *aw = new auto(hc->operator co_await());
+            if (aw->await_ready())
+                observe(*hc, id);
+            else if (!aw->await_suspend(&cbfn_done, ctx))
+                observe(*hc, id);
+            vrt_scratch()[20 + id] = (int64_t)(intptr_t)aw;
+            vrt_scratch()[24 + id] = (int64_t)(intptr_t)ctx;
+            vrt_scratch()[28 + id] = (int64_t)(intptr_t)hc;
+            break;
+        }
         case S_POLL:
             while (!h.ready()) vrt_yield();
             observe(h, id);
@@ -132,6 +159,17 @@ static void scenario(int ctor, int rk, int nh, const int *scripts, int main_drop
         for (int i = 0; i < nh; i++) ht[i].join();
         vrt_label("main");
         sf.reset();
+        for (int i = 0; i < nh; i++)
+            if (scripts[i] == S_CBFN) {
+                // the callback runs on whichever thread resolves; wait for it before the equipment is freed
+                vrt_label("main-wait-callback");
+                while (!s[S_REL + i]) vrt_yield();
+                vrt_label("main");
+                using AW = decltype(std::declval<SF &>().operator co_await());
+                delete reinterpret_cast<AW *>((intptr_t)s[20 + i]);
+                delete reinterpret_cast<CbFnCtx *>((intptr_t)s[24 + i]);
+                delete reinterpret_cast<SF *>((intptr_t)s[28 + i]);
+            }
         int ek = rk == R_VAL ? 1 : rk == R_EXC ? 2 : 3;
         long ev = rk == R_VAL ? 42 : rk == R_EXC ? 77 : 0;
         for (int i = 0; i < 4; i++) {
